@@ -299,8 +299,8 @@ def run(chk):
     thorough = chk.tier == "thorough"
     hy = pc.hy_mod()
     validate_facts(chk, chk.rng, 20000 if thorough else 2000)
-    n_values = 9000 if thorough else 800
-    n_graphs = 1500 if thorough else 150
+    n_values = 9000 if thorough else 600
+    n_graphs = 1500 if thorough else 120
     chk.rule = ("values = fixed list (incl. the refutation witnesses) + seeded recursive generator over all documented types "
                 "(depth <= 3 quick, <= 5 thorough; strings over quotes, backslashes, controls, Latin-1, non-printables, astral, "
                 "surrogates; floats incl. random bit patterns, nan, inf, -0.0; ints to 10^40); graphs = random container trees "
